@@ -87,6 +87,7 @@ package node
 //@   ensures[only-if-changed] (forall k int :: 0 <= k && k < len(receipts) ==> !AcceptedChange(receipts[k])) ==> !__called("SetPeerSet") && c.validators == old(c.validators) && c.peers == old(c.peers) && __eq(hg.G_pset(c.hg.Store), old(hg.G_pset(c.hg.Store)))
 //@   ensures[changed-stored]  ret0 == nil && (exists k int :: 0 <= k && k < len(receipts) && AcceptedChange(receipts[k])) ==> __called("SetPeerSet")
 //@   ensures[stored]          ret0 == nil && __called("SetPeerSet") ==> hg.G_pset(c.hg.Store)[roundReceived + 6] == c.validators && c.validators != nil
+//@   ensures[sets]            c.peers != nil && c.validators != nil && (old(c.peerSelector) != nil ==> c.peerSelector != nil)
 //@   ensures[earlier-kept]    forall r int :: r < roundReceived + 6 && old(hg.G_psetOK(c.hg.Store)) && old(hg.G_psetFloor(c.hg.Store)) <= r ==> hg.G_pset(c.hg.Store)[r] == old(hg.G_pset(c.hg.Store))[r]
 //@   loop 1 modifies c.removedRound
 //@   loop 1 invariant[fold]   validators != nil && validators.WF() && currentPeers != nil && currentPeers.WF() && len(validators.Peers) <= len(old(c.validators.Peers)) + __idx() && len(currentPeers.Peers) <= len(old(c.peers.Peers)) + __idx()
@@ -96,6 +97,8 @@ package node
 //@ func (c *core) commit(block *hg.Block) error
 //@   requires c != nil && c.hg != nil && c.validator != nil && c.validator.Key != nil && block != nil && block.Signatures != nil && c.selfBlockSignatures != nil && c.selfBlockSignatures.Items() != nil
 //@   requires c.validators != nil && c.validators.WF() && c.peers != nil && c.peers.WF() && c.promises != nil && len(c.validators.Peers) < 1000000000 && len(c.peers.Peers) < 1000000000
+//@   registers Hashgraph.commitCallback
+//@   rely[sets] forall o *core :: (old(o.peers) != nil ==> o.peers != nil) && (old(o.validators) != nil ==> o.validators != nil) && (old(o.peerSelector) != nil ==> o.peerSelector != nil)
 //@   callback proxyCommitCallback modifies nothing
 //@   call processAcceptedInternalTransactions assume[receipts-bounded] len(commitResponse.InternalTransactionReceipts) < 1000000000
 //@   call signBlock assert[sign-after-commit] __called("proxyCommitCallback") && __lastret("proxyCommitCallback", 1) == nil && __eq(block.Body.StateHash, commitResponse.StateHash) && __eq(block.Body.InternalTransactionReceipts, commitResponse.InternalTransactionReceipts)
@@ -110,6 +113,7 @@ package node
 // to it; a refused event moves neither. The pools are not touched by either function.
 //@ func (c *core) insertEventAndRunConsensus(event *hg.Event, setWireInfo bool) error
 //@   safety on
+//@   ensures[sets]    (old(c.peers) != nil ==> c.peers != nil) && (old(c.validators) != nil ==> c.validators != nil) && (old(c.peerSelector) != nil ==> c.peerSelector != nil)
 //@   requires c != nil && c.hg != nil && c.validator != nil && c.validator.Key != nil && event != nil && len(event.Body.Parents) == 2 && c.hg.ConsensusReady()
 //@   ensures[ready]   c.hg == old(c.hg) && c.hg.ConsensusReady()
 //@   ensures[refused] ret0 != nil ==> c.head == old(c.head) && c.seq == old(c.seq)
@@ -119,6 +123,7 @@ package node
 
 //@ func (c *core) signAndInsertSelfEvent(event *hg.Event) error
 //@   safety on
+//@   ensures[sets]    (old(c.peers) != nil ==> c.peers != nil) && (old(c.validators) != nil ==> c.validators != nil) && (old(c.peerSelector) != nil ==> c.peerSelector != nil)
 //@   requires c != nil && c.hg != nil && c.validator != nil && c.validator.Key != nil && event != nil && len(event.Body.Parents) == 2 && c.hg.ConsensusReady()
 //@   ensures[ready]   c.hg == old(c.hg) && c.hg.ConsensusReady()
 //@   ensures[refused] ret0 != nil ==> c.head == old(c.head) && c.seq == old(c.seq)
@@ -132,6 +137,7 @@ package node
 
 //@ func (c *core) addSelfEvent(otherHead string) error
 //@   safety on
+//@   ensures[sets]            (old(c.peers) != nil ==> c.peers != nil) && (old(c.validators) != nil ==> c.validators != nil) && (old(c.peerSelector) != nil ==> c.peerSelector != nil)
 //@   requires c != nil && c.hg != nil && c.validator != nil && c.validator.Key != nil && c.selfBlockSignatures != nil && c.hg.ConsensusReady()
 //@   ensures[ready]           c.hg == old(c.hg) && c.hg.ConsensusReady()
 //@   ensures[too-early]       c.hg.Store.LastRound() < old(c.acceptedRound) && !__called("signAndInsertSelfEvent") ==> ret0 == nil && __eq(c.transactionPool, old(c.transactionPool)) && __eq(c.internalTransactionPool, old(c.internalTransactionPool))
@@ -152,18 +158,21 @@ package node
 // that fails before recording heads, or that is truncated, leaves them exactly as they were.
 //@ func (c *core) recordHeads() error
 //@   safety on
+//@   ensures[sets]    (old(c.peers) != nil ==> c.peers != nil) && (old(c.validators) != nil ==> c.validators != nil) && (old(c.peerSelector) != nil ==> c.peerSelector != nil)
 //@   requires c != nil && c.hg != nil && c.validator != nil && c.validator.Key != nil && c.selfBlockSignatures != nil && c.hg.ConsensusReady()
 //@   ensures[ready]      c.hg == old(c.hg) && c.hg.ConsensusReady()
 //@   ensures[pools-kept] !__called("addSelfEvent") ==> __eq(c.transactionPool, old(c.transactionPool)) && __eq(c.internalTransactionPool, old(c.internalTransactionPool))
 //@   loop 1 invariant[ready] c.hg == old(c.hg) && c.hg.ConsensusReady() && c.validator == old(c.validator) && c.selfBlockSignatures == old(c.selfBlockSignatures)
+//@   loop 1 invariant[sets]  (old(c.peers) != nil ==> c.peers != nil) && (old(c.validators) != nil ==> c.validators != nil) && (old(c.peerSelector) != nil ==> c.peerSelector != nil)
 //@   loop 1 invariant[pools-kept] !__called("addSelfEvent") ==> __eq(c.transactionPool, old(c.transactionPool)) && __eq(c.internalTransactionPool, old(c.internalTransactionPool))
 
 //@ func (c *core) sync(fromID uint32, unknownEvents []hg.WireEvent) error
 //@   safety on
-//@   requires c != nil && c.hg != nil && c.validator != nil && c.validator.Key != nil && c.selfBlockSignatures != nil && c.hg.ConsensusReady() && c.heads != nil
+//@   requires c != nil && c.hg != nil && c.validator != nil && c.validator.Key != nil && c.selfBlockSignatures != nil && c.hg.ConsensusReady() && c.heads != nil && c.promises != nil
 //@   ensures[ready]      c.hg == old(c.hg) && c.hg.ConsensusReady()
+//@   ensures[kept]       c.validator == old(c.validator) && c.selfBlockSignatures == old(c.selfBlockSignatures) && c.heads != nil && (old(c.peers) != nil ==> c.peers != nil) && (old(c.peerSelector) != nil ==> c.peerSelector != nil) && c.promises != nil
 //@   ensures[pools-kept] !__called("recordHeads") ==> __eq(c.transactionPool, old(c.transactionPool)) && __eq(c.internalTransactionPool, old(c.internalTransactionPool))
-//@   loop 1 invariant[ready] c.hg == old(c.hg) && c.hg.ConsensusReady() && c.validator == old(c.validator) && c.selfBlockSignatures == old(c.selfBlockSignatures) && c.heads != nil
+//@   loop 1 invariant[ready] c.hg == old(c.hg) && c.hg.ConsensusReady() && c.validator == old(c.validator) && c.selfBlockSignatures == old(c.selfBlockSignatures) && c.heads != nil && (old(c.peers) != nil ==> c.peers != nil) && (old(c.peerSelector) != nil ==> c.peerSelector != nil) && c.promises != nil
 //@   loop 1 invariant[pools-kept] __eq(c.transactionPool, old(c.transactionPool)) && __eq(c.internalTransactionPool, old(c.internalTransactionPool))
 
 // ------------------------------------------------------------------------------------------------
@@ -176,13 +185,17 @@ package node
 //@   modifies hg.G_miss(c.hg.Store)
 //@   ensures[nonnil] err == nil ==> (forall k int :: 0 <= k && k < len(events) ==> events[k] != nil)
 //@   ensures[empty-on-error] err != nil ==> len(events) == 0
+//@   ensures[miss] old(hg.G_miss(c.hg.Store)) ==> hg.G_miss(c.hg.Store)
 //@   loop 1 modifies hg.G_miss(c.hg.Store)
 //@   loop 2 modifies hg.G_miss(c.hg.Store)
+//@   loop 1 invariant[miss] old(hg.G_miss(c.hg.Store)) ==> hg.G_miss(c.hg.Store)
+//@   loop 2 invariant[miss] old(hg.G_miss(c.hg.Store)) ==> hg.G_miss(c.hg.Store)
 //@   loop 1 invariant[nonnil] forall k int :: 0 <= k && k < len(unknown) ==> unknown[k] != nil
 //@   loop 2 invariant[nonnil] forall k int :: 0 <= k && k < len(unknown) ==> unknown[k] != nil
 
 //@ func (n *Node) processSyncRequest(rpc net.RPC, cmd *net.SyncRequest)
 //@   safety on
+//@   ensures[miss] old(hg.G_miss(n.core.hg.Store)) ==> hg.G_miss(n.core.hg.Store)
 //@   requires n != nil && n.core != nil && n.core.validator != nil && n.core.validator.Key != nil && n.core.hg != nil && n.conf != nil && cmd != nil
 //@   modifies hg.G_miss(n.core.hg.Store)
 
@@ -191,10 +204,10 @@ package node
 //@ func newCore(validator *Validator, peers *peers.PeerSet, genesisPeers *peers.PeerSet, store hg.Store, proxyCommitCallback proxy.CommitCallback, maintenanceMode bool, logger *logrus.Entry) *core
 //@   scope entry
 //@   requires validator != nil && validator.Key != nil && peers != nil && genesisPeers != nil
-//@   ensures[born] ret0 != nil && __fresh(ret0) && ret0.validator == validator && ret0.hg != nil && ret0.hg.ConsensusReady() && ret0.selfBlockSignatures != nil && ret0.heads != nil && ret0.promises != nil && ret0.peers == peers && ret0.validators == genesisPeers && len(ret0.transactionPool) == 0 && len(ret0.internalTransactionPool) == 0 && ret0.seq == -1 && ret0.head == ""
+//@   ensures[born] ret0 != nil && __fresh(ret0) && ret0.validator == validator && ret0.hg != nil && ret0.hg.ConsensusReady() && ret0.selfBlockSignatures != nil && ret0.heads != nil && ret0.promises != nil && ret0.peers == peers && ret0.peerSelector != nil && ret0.validators == genesisPeers && len(ret0.transactionPool) == 0 && len(ret0.internalTransactionPool) == 0 && ret0.seq == -1 && ret0.head == ""
 
 // standing: the invariants a running node keeps between requests (established by NewNode/Init; not verified there).
-//@ ghost func (n *Node) standing() bool { return n != nil && n.core != nil && n.core.validator != nil && n.core.validator.Key != nil && n.core.hg != nil && n.conf != nil && n.core.selfBlockSignatures != nil && n.core.heads != nil && n.core.hg.ConsensusReady() && n.core.peers != nil && n.core.promises != nil && n.proxy != nil }
+//@ ghost func (n *Node) standing() bool { return n != nil && n.core != nil && n.core.validator != nil && n.core.validator.Key != nil && n.core.hg != nil && n.conf != nil && n.core.selfBlockSignatures != nil && n.core.heads != nil && n.core.hg.ConsensusReady() && n.core.peers != nil && n.core.peerSelector != nil && n.core.promises != nil && n.proxy != nil }
 
 // A new node satisfies the standing invariants (given a configuration, a validator with a key, peer sets and an
 // application proxy).
@@ -207,11 +220,13 @@ package node
 // SyncResponse) and pushing (computing the difference from the Known map of the response) cannot panic (C08).
 //@ func (n *Node) pull(peer *peers.Peer) (otherKnownEvents map[uint32]int, err error)
 //@   safety on
+//@   ensures[standing] n.standing()
 //@   requires n.standing() && peer != nil && n.trans != nil
 //@   ensures[ready] n.core == old(n.core) && n.core.hg == old(n.core.hg) && n.core.hg.ConsensusReady()
 
 //@ func (n *Node) push(peer *peers.Peer, knownEvents map[uint32]int) error
 //@   safety on
+//@   ensures[standing] n.standing()
 //@   requires n.standing() && peer != nil && n.trans != nil && n.conf.SyncLimit >= 0
 
 //@ func (c *core) toWire(events []*hg.Event) ([]hg.WireEvent, error)
@@ -227,26 +242,51 @@ package node
 //@   safety on
 //@   requires n.standing()
 //@   ensures[ready] n.core == old(n.core) && n.core.hg == old(n.core.hg) && n.core.hg.ConsensusReady()
+//@   ensures[standing] n.standing()
 //@   call processSigPool assume[separate-blocks] hg.StoredBlocksSeparate(n.core.hg.Store)
 
 //@ func (n *Node) processEagerSyncRequest(rpc net.RPC, cmd *net.EagerSyncRequest)
 //@   safety on
+//@   ensures[standing] n.standing()
 //@   requires n.standing() && cmd != nil
 
 //@ func (n *Node) processFastForwardRequest(rpc net.RPC, cmd *net.FastForwardRequest)
 //@   safety on
+//@   ensures[standing] n.standing()
 //@   requires n.standing() && cmd != nil
 
 //@ func (n *Node) processJoinRequest(rpc net.RPC, cmd *net.JoinRequest)
 //@   safety on
+//@   ensures[standing] n.standing()
 //@   requires n.standing() && cmd != nil
 
 //@ func (n *Node) processRPC(rpc net.RPC)
+//@   ensures[standing] n.standing()
 //@   requires n.standing()
 //@   call processEagerSyncRequest   assert[gate-eager] __lastret("GetState", 0) == _state.Babbling
 //@   call processFastForwardRequest assert[gate-ff]    __lastret("GetState", 0) == _state.Babbling
 //@   call processJoinRequest        assert[gate-join]  __lastret("GetState", 0) == _state.Babbling
 //@   call processSyncRequest        assert[gate-sync]  __lastret("GetState", 0) == _state.Babbling || __lastret("GetState", 0) == _state.Suspended
+
+// The node's own periodic work keeps the standing invariants as well: a gossip round (pull, then push) and a
+// monologue (a self-event when there is something to record).
+//@ func (n *Node) gossip(peer *peers.Peer) error
+//@   safety on
+//@   requires n.standing() && peer != nil && n.trans != nil && n.conf.SyncLimit >= 0
+//@   ensures[standing] n.standing()
+
+// The statistics read the node without changing it; that the peer selector always holds a peer set (it is built
+// from core.peers, which is never nil) is assumed, not proved: selectors are behind an interface.
+//@ func (n *Node) GetStats() map[string]string
+//@   safety on
+//@   requires n != nil && n.core != nil && n.core.hg != nil && n.core.validator != nil && n.core.validator.Key != nil && n.core.peerSelector != nil
+//@   call Len assume[selector-has-peers] __recv() != nil
+
+//@ func (n *Node) monologue() error
+//@   safety on
+//@   requires n.standing()
+//@   ensures[standing] n.standing()
+//@   call processSigPool assume[separate-blocks] hg.StoredBlocksSeparate(n.core.hg.Store)
 
 //@ func (n *Node) Suspend()
 //@   trusted state transition and routine shutdown (concurrency) not verified
